@@ -30,7 +30,7 @@ FromFdOk(r) ==
 OpenOk(r) == ~r.got_value /\ r.errcls = "open" /\ r.ret = -1 /\ r.errcls2 = "open" /\ r.ret_null = -1 /\ r.leak = 0
 StepOfImpl(s, r) == [ok |-> CASE r.e = "tofd" -> ToFdOk(r) [] r.e = "fromfd" -> FromFdOk(r) [] r.e = "open" -> OpenOk(r) [] OTHER -> FALSE, st |-> s]
 TraceLog == ndJsonDeserialize(IOEnv.TRACE)
-T == INSTANCE TraceBase WITH Log <- TraceLog, InitSt <- 0, StepOf <- StepOfImpl
+T == INSTANCE TraceBase WITH Log <- TraceLog, InitSt <- 0, StepOf <- StepOfImpl, ResyncAtNew <- FALSE
 Spec == T!Spec
 Done == T!Done
 ====
